@@ -167,7 +167,22 @@ func Main(args []string) error {
 		rec := Rec{I: i, Limit: map[string]string{"org": fmt.Sprint(limitOrg)}, Errs: []string{}, Got: [][]string{}, Stmts: []Stmt{}}
 		limit := sqlgen.Filter{"org": limitOrg}
 		db := base
-		switch r.Intn(3) {
+		switch r.Intn(4) {
+		case 3:
+			// a shard limit plus a dynamic limit whose callback only logs (returns true): the shard limit
+			// still has to confine every statement
+			rec.Mode = "shard+permissive-dynamic"
+			d1, _ := base.WithShardLimit(limit)
+			other := sqlgen.Filter{"kind": sqlzoo.Kind(9)}
+			db, _ = d1.WithDynamicLimit(sqlgen.DynamicLimit{
+				GetLimitFilter: func(context.Context, string) sqlgen.Filter {
+					if r.Intn(2) == 0 {
+						return limit
+					}
+					return other
+				},
+				ShouldContinueOnError: func(error, string) bool { return true },
+			})
 		case 0:
 			rec.Mode = "shard"
 			db, _ = base.WithShardLimit(limit)
